@@ -12,6 +12,9 @@ FRO = '__CPROVER_is_fresh(on, 8) && __CPROVER_is_fresh(o, 16)'
 OUTS = '*on, __CPROVER_object_whole(o)'
 
 
+B3 = lambda *bs: ' && '.join('(%s == 0 || %s == 1)' % (b, b) for b in bs)
+
+
 def by_n(f):
     """expression selected by the symbolic size n in 0..3: f(k) for n == k"""
     return '(n == 0 ? %s : (n == 1 ? %s : (n == 2 ? %s : %s)))' % (f(0), f(1), f(2), f(3))
@@ -39,7 +42,7 @@ def filtered(keep, val, outn='*on', out='o'):
 def make(tier):
     P = Plan('C16', level='proof', design_ref='DESIGN.md section 5 C16')
     P.meta += ['the algorithms are templates over the range type; they are instantiated on a fixed-capacity container with symbolic size 0..3 and symbolic elements, with uninterpreted functions/predicates: every loop is bounded by the capacity, the contracts are the obvious loop written out per size']
-    P.not_decided += ['std::vector / std::list / std::deque / std::set / std::map instantiations (heap and red-black-tree code)', 'join_strings on std::string (heap): checked on a fixed-capacity string type instead', 'split_string and the split/join round trip (result in a std::vector: did not close, DESIGN.md 10.6)', 'map_iteration, sequence_iteration, container::get_or_insert / key_set / map_values / set_* (not built)']
+    P.not_decided += ['std::vector / std::list / std::deque / std::set / std::map instantiations (heap and red-black-tree code)', 'join_strings on std::string (heap): checked on a fixed-capacity string type instead', 'split_string and the split/join round trip (result in a std::vector: did not close, DESIGN.md 10.6)', 'find_opt_mapped / get_or_insert / key_set / map_values / set_union / set_intersection / set_difference / map_iteration on std::map / std::set (red-black tree code in libstdc++.so): they are under contract on fixed-capacity sorted-array / slot containers written in the shim']
     C = {}
     st = lambda k: 'init' if k == 0 else F2(A[k - 1], st(k - 1))
     C['vf_fold'] = ([PRE], G, ['__CPROVER_return_value == %s' % by_n(st), 'c_f2 == n', ' && '.join('VF_IMP(%d < n, l_f2e[%d] == a%d)' % (k, k, k) for k in range(3))], 'fold: left fold over all elements in order')
@@ -154,4 +157,56 @@ def make(tier):
             u3.contract(f, cls='W', unwind=14, bound='fixed-capacity string type (12 characters): at most 3 parts of length <= 2, delimiter of length <= 2; loops bounded by the capacity, unwinding assertions on', backends=['sat', 'cvc5'], what=what, timeout=900)
         # split_string / split_join: the result lives in a real std::vector; measured: 12 GB / 15 min under --dfcc and 24 GB without (strings of <= 3 characters,
         # capacity-4 string type, unwind 6) - not registered as jobs, listed as not decided (DESIGN.md 10.6). The contracts stay in str.spec for the record.
+    # ---- associative helpers and iteration helpers on fixed-capacity harness containers (assoc.cpp)
+    Z = 'c_f2 == 0 && c_pred == 0 && c_map == 0 && c_vis == 0 && c_tick == 0'
+    KS = ['k0', 'k1', 'k2']; MS = ['m0', 'm1', 'm2']
+    SORTK = 'n <= 3 && (n < 2 || (i32)k0 < (i32)k1) && (n < 3 || (i32)k1 < (i32)k2)'
+    fidx = lambda n_: first_idx(lambda k: '%s == key' % KS[k], n_)          # index of the key among the first n_ entries, else n_
+    found = '(' + ' || '.join('(%d < n && %s == key)' % (k, KS[k]) for k in range(3)) + ')'
+    mfound = '(0 < n && k0 == key ? m0 : (1 < n && k1 == key ? m1 : m2))'
+    ifound = '(0 < n && k0 == key ? 0 : (1 < n && k1 == key ? 1 : 2))'
+    pos = '(' + ' + '.join('((%d < n && (i32)%s < (i32)key) ? 1 : 0)' % (k, KS[k]) for k in range(3)) + ')'
+    FRM = '__CPROVER_is_fresh(on, 8) && __CPROVER_is_fresh(o, 32)'
+    Q = {}
+    Q['vf_find_opt_mapped'] = ([SORTK, Z, '__CPROVER_is_fresh(val, 4)'], G + ', *val', ['(i64)__CPROVER_return_value == (%s ? (i64)(2 * %s) : (i64)-1)' % (found, ifound), 'VF_IMP(%s, *val == %s)' % (found, mfound)], 'find_opt_mapped: a reference to the mapped value of the key iff the key is present')
+    Q['vf_find_opt_c'] = ([SORTK, Z], G, ['(i64)__CPROVER_return_value == (%s ? (i64)%s : (i64)-1)' % (found, ifound)], 'container::find_opt: the element with the key iff present')
+    after = ['*on == n + (%s ? 0 : 1)' % found] + ['VF_IMP(%d < n, o[2 * (%d + ((!%s && (i32)key < (i32)%s) ? 1 : 0))] == %s && o[2 * (%d + ((!%s && (i32)key < (i32)%s) ? 1 : 0)) + 1] == %s)' % (k, k, found, KS[k], KS[k], k, found, KS[k], MS[k]) for k in range(3)] + \
+            ['VF_IMP(!%s, o[2 * %s] == key && o[2 * %s + 1] == %s)' % (found, pos, pos, Mp('key'))]
+    Q['vf_get_or_insert'] = ([SORTK, Z, FRM + ' && __CPROVER_is_fresh(inserted, 1)'], G + ', ' + OUTS + ', *inserted', ['__CPROVER_return_value == (%s ? %s : %s)' % (found, mfound, Mp('key')), '*inserted == !%s' % found, 'c_map == (%s ? 0 : 1)' % found, 'VF_IMP(!%s, l_map[0] == key)' % found] + after,
+                             'get_or_insert_with_result: the mapped value of a present key (nothing inserted, create not called), otherwise create(key) is called exactly once, inserted under the key and returned with inserted == true; every other entry is unchanged')
+    Q['vf_get_or_insert_plain'] = ([SORTK, Z, FRM], G + ', ' + OUTS, ['__CPROVER_return_value == (%s ? %s : %s)' % (found, mfound, Mp('key')), 'c_map == (%s ? 0 : 1)' % found] + after, 'get_or_insert: same, returning the element')
+    Q['vf_key_set'] = ([SORTK, Z, FRM], G + ', ' + OUTS, ['*on == n', ' && '.join('VF_IMP(%d < n, o[%d] == %s)' % (k, k, KS[k]) for k in range(3))], 'key_set: exactly the keys')
+    Q['vf_map_values'] = ([SORTK, Z, FRM], G + ', ' + OUTS, ['*on == n', ' && '.join('VF_IMP(%d < n, o[%d] == %s)' % (k, k, MS[k]) for k in range(3))], 'map_values_copy: the mapped values in key order')
+    SA = 'na <= 3 && (na < 2 || (i32)a0 < (i32)a1) && (na < 3 || (i32)a1 < (i32)a2)'
+    SB = 'nb <= 3 && (nb < 2 || (i32)b0 < (i32)b1) && (nb < 3 || (i32)b1 < (i32)b2)'
+    inA = lambda x: '(' + ' || '.join('(%d < na && a%d == %s)' % (k, k, x) for k in range(3)) + ')'
+    inB = lambda x: '(' + ' || '.join('(%d < nb && b%d == %s)' % (k, k, x) for k in range(3)) + ')'
+    inR = lambda x: '(' + ' || '.join('(%d < *on && o[%d] == %s)' % (k, k, x) for k in range(6)) + ')'
+    sortedR = '*on <= 6 && ' + ' && '.join('VF_IMP(%d < *on, (i32)o[%d] < (i32)o[%d])' % (k + 1, k, k + 1) for k in range(5))
+    def setspec(member):
+        cl = [sortedR]
+        cl += ['VF_IMP(%d < na && %s, %s)' % (k, member('a%d' % k), inR('a%d' % k)) for k in range(3)]
+        cl += ['VF_IMP(%d < nb && %s, %s)' % (k, member('b%d' % k), inR('b%d' % k)) for k in range(3)]
+        cl += ['VF_IMP(%d < *on, %s)' % (k, member('o[%d]' % k)) for k in range(6)]
+        return cl
+    Q['vf_set_union'] = ([SA, SB, Z, FRM] + ([] if tier == 'thorough' else ['na <= 2 && nb <= 2']), G + ', ' + OUTS, setspec(lambda x: '(%s || %s)' % (inA(x), inB(x))), 'set_union: exactly the elements of either set, each once, in order')
+    Q['vf_set_intersection'] = ([SA, SB, Z, FRM], G + ', ' + OUTS, setspec(lambda x: '(%s && %s)' % (inA(x), inB(x))), 'set_intersection: exactly the common elements')
+    Q['vf_set_difference'] = ([SA, SB, Z, FRM], G + ', ' + OUTS, setspec(lambda x: '(%s && !%s)' % (inA(x), inB(x))), 'set_difference: exactly the elements of the first set that are not in the second')
+    Q['vf_container_contains'] = (['n <= 3 && (n < 2 || (i32)a0 < (i32)a1) && (n < 3 || (i32)a1 < (i32)a2)', Z], G, ['__CPROVER_return_value == (%s)' % ' || '.join('(%d < n && a%d == key)' % (k, k) for k in range(3))], 'container::contains: membership')
+    Q['vf_sequence_iteration'] = ([PRE, FRO], G + ', ' + OUTS, filtered(lambda k: '!' + Pd(A[k]), lambda k: 'a%d' % k) + ['c_pred == n', ' && '.join('VF_IMP(%d < n, l_pred[%d] == a%d)' % (k, k, k) for k in range(3))],
+                                  'sequence_iteration: the action is applied to every element exactly once, in order; exactly the elements whose action is remove are erased')
+    LV = ['l0', 'l1', 'l2']
+    cnt = ' + '.join('(%s ? 1 : 0)' % l for l in LV)
+    for nm, txt in (('vf_map_iteration', 'map_iteration'), ('vf_map_iteration_second', 'map_iteration_second')):
+        Q[nm] = ([Z, B3(*LV), '__CPROVER_is_fresh(alive, 3)'], G + ', __CPROVER_object_whole(alive)', [' && '.join('alive[%d] == (%s && !%s)' % (k, LV[k], Pd(KS[k])) for k in range(3)), 'c_pred == %s' % cnt],
+                 txt + ': the action is applied to every element exactly once; exactly the elements whose action is remove are erased, the others stay')
+    Q['vf_maybe_front_back'] = ([PRE, '__CPROVER_is_fresh(back, 8)'], G + ', *back', ['(i64)__CPROVER_return_value == (n == 0 ? (i64)-1 : (i64)0)', '(i64)*back == (n == 0 ? (i64)-1 : (i64)n - 1)'], 'maybe_front / maybe_back: the first / last element iff the container is not empty')
+    Q['vf_pop_front'] = ([PRE, FRO + ' && __CPROVER_is_fresh(val, 4)'], G + ', ' + OUTS + ', *val', ['__CPROVER_return_value == (n > 0)', 'VF_IMP(n > 0, *val == a0 && *on == n - 1 && VF_IMP(n > 1, o[0] == a1) && VF_IMP(n > 2, o[1] == a2))', 'VF_IMP(n == 0, *on == 0)'], 'pop_front: removes and returns the first element, the rest keeps its order')
+    qspec = ''
+    for f, (req, asg, ens, what) in Q.items():
+        qspec += 'function %s\n' % f + ''.join('  __CPROVER_requires(%s)\n' % r for r in req) + '  __CPROVER_assigns(%s)\n' % asg + ''.join('  __CPROVER_ensures(%s)\n' % e for e in ens)
+    P.generated['assoc.spec'] = qspec
+    uq = P.unit('assoc', 'assoc.cpp', specs=['assoc.spec'], harness=['harness.c'], pre=['ghost.h'], inline=True)
+    for f, (req, asg, ens, what) in Q.items():
+        uq.contract(f, cls='W', unwind=9, bound='harness containers of capacity 4 (map, sequence) / 6 (set) with symbolic size <= 3 (+ 3): loops bounded by the capacity, unwinding assertions on', backends=['sat', 'cvc5'], what=what, native=False, timeout=900)
     return P
